@@ -433,8 +433,9 @@ func (st *State) checkEnsures(fr *Frame, results []SVal) {
 	if u.invCover == nil {
 		u.invCover = map[string]int{}
 	}
-	if u.invCover["ret:"+site] < 3 {
-		// vacuity probe (a few paths per return site): some return of the unit must be reachable (evaluated as a group)
+	if u.invCover["ret:"+site] < 400 {
+		// vacuity probe: a cover query per path reaching a return site; only the first and the last few per site are
+		// solved (the first explored paths are the failure forks, the last ones the main line)
 		u.invCover["ret:"+site]++
 		st.e.addObligation(st, u, "cover", "return-reachable", site, TFalse, u.c.Props, "return", true)
 	}
